@@ -34,6 +34,11 @@ type ObjCase struct {
 	TreeSize  uint64
 	Root      []byte // 32
 
+	// BigEntry > 0 stretches Cert and TBS to that many octets (filler derived from Seed), BigExt likewise
+	// the extensions: lengths at the one / two / three byte boundaries of the length prefixes.
+	BigEntry int
+	BigExt   int
+
 	Muts []Mut // Kind "field": Key names the field, A / Data parametrise the change; else a blob mutation
 }
 
@@ -101,6 +106,21 @@ func genU64(t *rapid.T, label string) uint64 {
 	return rapid.Uint64().Draw(t, label)
 }
 
+var bigSizes = []int{255, 256, 65535, 65536, 65537, 70000, 131072, 200000}
+
+// stretch extends b to n octets with a filler that depends on seed (deterministic, incompressible enough).
+func stretch(b []byte, n int, seed uint64) []byte {
+	out := append(make([]byte, 0, n), b...)
+	x := seed | 1
+	for len(out) < n {
+		x ^= x << 13
+		x ^= x >> 7
+		x ^= x << 17
+		out = append(out, byte(x>>24))
+	}
+	return out
+}
+
 func genObj(t *rapid.T) ObjCase {
 	c := ObjCase{Seed: rapid.Uint64().Draw(t, "seed"), Kind: pickStr(t, "kind", []string{"sct", "sct", "sth"}), OptIn: rapid.Bool().Draw(t, "optin")}
 	for {
@@ -128,6 +148,12 @@ func genObj(t *rapid.T) ObjCase {
 		c.Root = genBytes32(t, "root")
 	}
 	c.LogID = genBytes32(t, "logid")
+	if c.Kind == "sct" && pick(t, "big", 12) == 0 {
+		c.BigEntry = bigSizes[pick(t, "bigsize", len(bigSizes))]
+		if pick(t, "bigext", 3) == 0 {
+			c.BigExt = []int{255, 256, 65535}[pick(t, "bigextsize", 3)] // an "ext" mutation can push 65535 over the limit
+		}
+	}
 	nm := []int{0, 0, 1, 1, 1, 1, 1, 2, 2, 2}[pick(t, "nmut", 10)]
 	for i := 0; i < nm; i++ {
 		c.Muts = append(c.Muts, genObjMut(t, fmt.Sprintf("mut%d", i), c.Kind, getKey(c.Key)))
@@ -286,6 +312,12 @@ func (o *objState) verifyWith(kind string, sv *ct.SignatureVerifier) (got error,
 // newObjState builds the object of c as issued (signed over the reference input, nothing mutated yet).
 func newObjState(c ObjCase) (*objState, []byte, error) {
 	k := getKey(c.Key)
+	if c.BigEntry > 0 {
+		c.Cert, c.TBS = stretch(c.Cert, c.BigEntry, c.Seed), stretch(c.TBS, c.BigEntry, c.Seed+1)
+	}
+	if c.BigExt > 0 {
+		c.Ext = stretch(c.Ext, c.BigExt, c.Seed+2)
+	}
 	o := &objState{ts: c.Timestamp, ext: c.Ext, etype: c.EntryType, cert: c.Cert, ikh: to32(c.IKH), tbs: c.TBS, logID: to32(c.LogID), sthLogID: to32(c.LogID),
 		leafTS: c.Timestamp, leafExt: c.Ext, treeSize: c.TreeSize, root: to32(c.Root)}
 	orig, err := o.refInput(c.Kind)
